@@ -130,10 +130,15 @@ def r14_refusal_propagates(check, prog):
     m = prog.modules['holopy.core.prior']
     TOO_WIDE = {'NotImplementedError', 'RuntimeError', 'Exception', 'BaseException'}
     n = 0
+    helpers = {x.name: x for x in m.tree.body if isinstance(x, ast.FunctionDef)}
     for cls in [x for x in m.tree.body if isinstance(x, ast.ClassDef)]:
-        for fd in [x for x in cls.body if isinstance(x, ast.FunctionDef)
-                   and x.name in ('lnprob', 'prob')]:
-            for node in ast.walk(fd):
+        for fd0 in [x for x in cls.body if isinstance(x, ast.FunctionDef)
+                    and x.name in ('lnprob', 'prob')]:
+            # the method and the module-level helpers it calls by name
+            called = {c.func.id for c in ast.walk(fd0) if isinstance(c, ast.Call)
+                      and isinstance(c.func, ast.Name) and c.func.id in helpers}
+            for fd, node in [(f, nd) for f in [fd0] + [helpers[h] for h in sorted(called)]
+                             for nd in ast.walk(f)]:
                 if not isinstance(node, ast.Try):
                     continue
                 for h in node.handlers:
@@ -157,7 +162,7 @@ def r14_refusal_propagates(check, prog):
                                   'derived prior is swallowed and the part counted as a '
                                   'fixed number -- ComplexPrior(2 * Uniform(1, 2), '
                                   '0.5).prob(100 + 0.5j) is 1.0' % ', '.join(wide))
-    check.floor('R14 handlers in density methods of prior classes', n, 2)
+    check.note('R14 handlers in density methods of prior classes', str(n))
 
 
 def r13_unsupported_operands(check, prog):
